@@ -760,9 +760,82 @@ def run_tcp_write(ctx, res):
             res.nontriv(("tcp-write", tuple(plan)))
 
 
+def tcp_dead_socket_case(how):
+    """Real Transport.send -> real TCPTransport.write/close over a REAL socket (socketpair) that is already dead when
+    the pump writes: 'closed' = the reader thread closed it after an error (connection_lost with an exception closes
+    the socket itself, protocol.transport is cleared only afterwards), 'peer-gone' = the other end was closed,
+    'shutdown' = both directions shut down.  The reader thread is an idle stand-in (the write path is what is run).
+    Returns (exception escaping send or None, number of conn_lost_callback calls)."""
+    import socket
+    import mysensors.gateway_tcp as gt
+    from mysensors.transport import SyncTransport
+
+    class Reader(gt.TCPTransport):
+        def run(self):
+            while self.alive:
+                time.sleep(0.005)
+
+    a, b = socket.socketpair()
+    tr = Reader(a, lambda: None, lambda: None)
+    tr.start()
+    lost = []
+
+    class Proto:
+        transport = tr
+
+        @staticmethod
+        def conn_lost_callback():
+            lost.append(1)
+
+    st = SyncTransport(None, lambda *x: None)
+    st.protocol = Proto()
+    st.can_log = False
+    exc = None
+    try:
+        if how == "closed":
+            a.close()
+        elif how == "peer-gone":
+            b.close()
+        else:
+            a.shutdown(socket.SHUT_RDWR)
+        for _ in range(3):                    # a burst: the first write after the loss and the ones behind it
+            try:
+                st.send("2;1;1;0;2;25\n")
+            except BaseException as e:       # noqa: BLE001
+                exc = exc or e
+    finally:
+        tr.alive = False
+        tr.join(2)
+        for s_ in (a, b):
+            try:
+                s_.close()
+            except OSError:
+                pass
+    return exc, len(lost)
+
+
+def run_tcp_dead_socket(ctx, res):
+    """Nothing escapes Transport.send when the socket under it is already dead (the pump thread survives), and the loss
+    is reported to the reconnect machinery."""
+    for how in ("closed", "peer-gone", "shutdown"):
+        res.evaluations += 1
+        res.count("tcp-dead-socket:" + how)
+        exc, lost = tcp_dead_socket_case(how)
+        case = {"kind": "tcp-dead-socket", "how": how}
+        if exc is not None:
+            res.violate(f"tcp-dead-socket/send-raises-{exc_name(exc)}",
+                        f"socket {how}: Transport.send let {exc!r} escape into the message pump", case)
+        elif lost == 0:
+            res.violate("tcp-dead-socket/loss-not-reported", f"socket {how}: three commands were handed to a dead socket "
+                        "and the connection-lost callback was never called", case)
+        else:
+            res.nontriv(("tcp-dead-socket", how))
+
+
 def run(ctx, res):
     t0 = time.time()
     run_tcp_write(ctx, res)
+    run_tcp_dead_socket(ctx, res)
     if not (core.GEN / "SendSteps.v").exists():
         # the translator failed closed: an existing runner binary is stale -> monitors only
         ctx.model = None
@@ -799,6 +872,10 @@ def replay(ctx, case):
     logging.disable(logging.CRITICAL)
     case = case.get("case", case)
     kind = case.get("kind")
+    if kind == "tcp-dead-socket":
+        exc, lost = tcp_dead_socket_case(case["how"])
+        return {"how": case["how"], "exception_escaping_send": repr(exc), "conn_lost_callbacks": lost,
+                "violates": exc is not None or lost == 0}
     if kind == "race":
         sc = case["scenario"]
         choices, trace, o = sched.run_one(make_race(sc), [transport_file()], case["choices"])
